@@ -11,7 +11,7 @@ pub mod tests;
 // ================================================================================================
 
 /// The number of transition constraints in all the field operations.
-pub const NUM_CONSTRAINTS: usize = 22;
+pub const NUM_CONSTRAINTS: usize = 23;
 
 /// The degrees of constraints in individual stack operations of the field operations.
 pub const CONSTRAINT_DEGREES: [usize; NUM_CONSTRAINTS] = [
@@ -27,7 +27,7 @@ pub const CONSTRAINT_DEGREES: [usize; NUM_CONSTRAINTS] = [
     9, 9, // two constraints for OR field operation.
     9, 9, // two constraints for EQ field operation.
     9, 9, // two constraints for EQZ field operation.
-    9, 9, 9, 8, // four constraints for EXPACC field operation.
+    9, 9, 9, 8, 9, // five constraints for EXPACC field operation.
     8, 8, 9, 9, // four constraints for EXT2MUL field operation.
 ];
 
@@ -317,7 +317,7 @@ pub fn enforce_eqz_constraints<E: FieldElement>(
 
 /// Enforces constraints of the EXPACC operation. The EXPACC operation computes a single turn of exponent
 /// accumulation for the given inputs. Therefore, the following constraints are enforced:
-/// - The first element in the next frame should be a binary which is enforced as a general constraint.
+/// - The first element in the next frame should be a binary.
 /// - The exp value in the next frame should be the square of exp value in the current frame.
 /// - The accumulation value in the next frame is the product of the accumulation value in the
 /// current frame and the value which needs to be included in this turn.
@@ -337,7 +337,6 @@ pub fn enforce_expacc_constraints<E: FieldElement>(
     let acc_next = frame.stack_item_next(2);
     let b_next = frame.stack_item_next(3);
 
-    // bit should be binary and is enforced as a general constaint.
     // Enforces that exp_next is a square of exp.
     result[0] = op_flag * are_equal(exp_next, exp * exp);
 
@@ -350,7 +349,11 @@ pub fn enforce_expacc_constraints<E: FieldElement>(
     // Enforces that b_next is equal to b after a right shift.
     result[3] = op_flag * are_equal(b, b_next * E::from(2u32) + bit);
 
-    4
+    // Enforces that bit in the next frame is a binary. The general constraint on the top element
+    // being binary applies to the current frame and thus cannot be used for it.
+    result[4] = op_flag * is_binary(bit);
+
+    5
 }
 
 /// Enforces constraints of the EXT2MUL operation. The EXT2MUL operation computes the product of
